@@ -155,7 +155,7 @@ int main(int argc, char **argv) {
     for (int ki = 0; ki < 2; ki++) {
         KeyCtx &K = keys[ki];
         if (lambda && ki == 0) { K.dp = default_params(lambda); K.gb = K.dp; }
-        else { K.ps = new PSet(args.i("n", 16) + 4 * ki, 1024, 1, ki ? 2 : 3, ki ? 10 : 7, ki ? 6 : 4, ki ? 2 : 3, ldexp(1., -20), ldexp(1., -30)); /* the two keys differ in every layout, key switch included */ K.gb = K.ps->gb; }
+        else { K.ps = new PSet(args.i("n", 16) + 4 * ki, 1024, ki ? 2 : 1, ki ? 2 : 3, ki ? 10 : 7, ki ? 6 : 4, ki ? 2 : 3, ldexp(1., -20), ldexp(1., -30)); /* the two keys differ in every layout (k = 1, l = 3 against k = 2, l = 2: the same (k+1) l), key switch included */ K.gb = K.ps->gb; }
         K.sk = new_random_gate_bootstrapping_secret_keyset(K.gb); K.ck = &K.sk->cloud; K.n = K.gb->in_out_params->n;
     }
     // job table
